@@ -1,5 +1,5 @@
 CONSTANTS
-  ChunkBytes = {1, 3, 4}
+  ChunkBytes = {1, 3}
   ChunkMsgs = {1, 3}
   MaxOps = 6
 INIT Init
